@@ -38,55 +38,56 @@ type Obligation struct {
 }
 
 type Engine struct {
-	staticBinds  map[*ssa.Function]map[string]int
-	poisoned     map[int]string // regions of package-level variables whose initial value could not be computed
-	initErrors   []string
-	tier         string
-	curFrom      []string // proof hint of the assert being generated
-	templateMode bool     // replay: stop after building the entry state and evaluate the ensures over placeholders
-	templateOut  *replayTemplates
-	curContract  *Contract // contract of the function being verified
-	nilBytes     *Region   // backing of the empty byte string that stands for nil slices in DER predicates
-	prog         *ssa.Program
-	pkgs         map[string]*ssa.Package
-	db           *SpecDB
-	modPath      string
-	regionN      int
-	varN         int
-	obls         []*Obligation
-	oblNames     map[string]int
-	globals      map[*ssa.Global]*Region
-	gmem         *Memory // initial memory of globals after package initialisation
-	ginit        map[string]bool
-	concrete     bool // ground evaluation mode (package initialisers)
-	curProps     []string
-	curFunc      string
-	variant      string
-	inlined      map[string]bool
-	trusted      map[string]string
-	errors       []string
-	maxSteps     int
-	steps        int
-	strRegs      map[string]*Region
-	embed        map[string][]byte
-	skipInit     map[string]bool
-	sizes        types.Sizes
-	windows      map[int]*windowInfo
-	tableRegions []*Region
-	eagerPrune   bool
-	tables       *tableData
-	repoDir      string
-	aggRegions   map[*AggVal]*Region
-	lastProgress time.Time
-	familyRegs   map[string]*Region
-	localsBase   localsBaseline      // spec/locals.baseline.json
-	curAliases   map[string][]string // current local name -> baseline names it replaces (function being verified)
-	deadline     time.Time
-	feasN        int
-	inlinedExt   map[string]bool
-	anyReturn    bool
-	usedIntr     map[string]bool
-	usedLemmas   map[string]bool
+	staticBinds        map[*ssa.Function]map[string]int
+	poisoned           map[int]string // regions of package-level variables whose initial value could not be computed
+	initErrors         []string
+	tier               string
+	curFrom            []string // proof hint of the assert being generated
+	templateMode       bool     // replay: stop after building the entry state and evaluate the ensures over placeholders
+	templateOut        *replayTemplates
+	templateNilResults map[int]bool // replay, second pass: pointer results the real call returned as nil
+	curContract        *Contract    // contract of the function being verified
+	nilBytes           *Region      // backing of the empty byte string that stands for nil slices in DER predicates
+	prog               *ssa.Program
+	pkgs               map[string]*ssa.Package
+	db                 *SpecDB
+	modPath            string
+	regionN            int
+	varN               int
+	obls               []*Obligation
+	oblNames           map[string]int
+	globals            map[*ssa.Global]*Region
+	gmem               *Memory // initial memory of globals after package initialisation
+	ginit              map[string]bool
+	concrete           bool // ground evaluation mode (package initialisers)
+	curProps           []string
+	curFunc            string
+	variant            string
+	inlined            map[string]bool
+	trusted            map[string]string
+	errors             []string
+	maxSteps           int
+	steps              int
+	strRegs            map[string]*Region
+	embed              map[string][]byte
+	skipInit           map[string]bool
+	sizes              types.Sizes
+	windows            map[int]*windowInfo
+	tableRegions       []*Region
+	eagerPrune         bool
+	tables             *tableData
+	repoDir            string
+	aggRegions         map[*AggVal]*Region
+	lastProgress       time.Time
+	familyRegs         map[string]*Region
+	localsBase         localsBaseline      // spec/locals.baseline.json
+	curAliases         map[string][]string // current local name -> baseline names it replaces (function being verified)
+	deadline           time.Time
+	feasN              int
+	inlinedExt         map[string]bool
+	anyReturn          bool
+	usedIntr           map[string]bool
+	usedLemmas         map[string]bool
 }
 
 type State struct {
